@@ -60,17 +60,17 @@ func (c *reqCtx) Recv() ([]byte, error) {
 }
 
 type reqBench struct {
-	w        *W
-	mn       *MsgNet
-	addr     string
-	s        mangos.Socket
-	ctxs     []*reqCtx
-	pipes    []*MsgPipe
-	connAt   map[*MsgPipe]time.Duration
-	reqs     []*reqReq
-	byTag    map[string]*reqReq
-	bounded  bool
-	stray    []string
+	w       *W
+	mn      *MsgNet
+	addr    string
+	s       mangos.Socket
+	ctxs    []*reqCtx
+	pipes   []*MsgPipe
+	connAt  map[*MsgPipe]time.Duration
+	reqs    []*reqReq
+	byTag   map[string]*reqReq
+	bounded bool
+	stray   []string
 }
 
 func newReqBench(w *W, R time.Duration, nctx, npipes int, bounded bool) *reqBench {
